@@ -213,12 +213,19 @@ def run_machine(res: Result, r, n, grid=False):
         en = r.random() < 0.85
         if fixed is not None:
             p, q, en = fixed[2], fixed[3], True
-        reset = bytes([0x0F]) + le3(0xB9000) + bytes([0x32, 0xCC, 0xFB, 0x00])
+        # half of the runs also have the keyboard live (columns strobed, a key pressed at some point): key events are
+        # latched on main-timer ticks, and asserting KEYI must not disturb the timer bits set on the same tick
+        keys = fixed is None and r.random() < 0.5
+        reset = bytes([0x0F]) + le3(0xB9000) + bytes([0x32, 0xCC, 0xF0, 0xFF, 0x32, 0xCC, 0xF1, 0x07, 0x32, 0xCC, 0xFB, 0x00])
         scen = {"code": [[ROM_BASE, (reset + bytes(code)).hex()], [VECTOR, le3(ROM_BASE).hex()], [ENTRY, le3(ROM_BASE).hex()]],
                 "regs": {"PC": ROM_BASE, "S": 0xB9000}, "imem": {0xFB: 0, 0xFC: 0},
-                "timer": {"enabled": en, "mti": p, "sti": q, "kb_irq": False}}
+                "timer": {"enabled": en, "mti": p, "sti": q, "kb_irq": keys}}
         script = [("obs",)]
-        for _s in range(r.randrange(30, 90)):
+        nst = r.randrange(30, 90)
+        press_at = {r.randrange(4, nst): r.choice(("KEY_Q", "KEY_A", "KEY_ENTER")) for _k in range(r.randrange(1, 3))} if keys else {}
+        for _s in range(nst):
+            if _s in press_at:
+                script += [("press", press_at[_s]), ("obs",)]
             script += [("step",), ("wimem", 0xFC, 0), ("obs",)]
         jobs.append((scen, script, kind, p, q, en))
     routs = machine.run_rust([(s, sc) for s, sc, *_ in jobs], key_codes())
@@ -253,9 +260,9 @@ def run_machine(res: Result, r, n, grid=False):
             res.monitor("machine_level")
             case = {"model": model, "main": kind, "mti": p, "sti": q, "enabled": en, "steps": len(obs)}
             rises = [0, 0]
-            recs = [o for o in obs]
-            # records alternate: obs0, (step, obs-after-clear)*
-            steps = recs[1::2]
+            # one record per "step"/"obs" op of the script, in order: keep the records produced by the steps
+            kinds_ = [op[0] for op in script if op[0] in ("step", "obs")]
+            steps = [o for k_, o in zip(kinds_, obs) if k_ == "step"]
             bad = None
             for o in steps:
                 for bit, per, key in ((0, p, "next_mti"), (1, q, "next_sti")):
